@@ -5,6 +5,12 @@ import json
 BASELINE = "cd /repo && go test -mod=mod -json -vet=off -count=1 -timeout 25m ./..."
 
 CHECKS = {
+ "C05": dict(
+  engine="E2 history explorer + independent fragment reader",
+  technique="explicit enumeration (DFS over operation histories on the real builder objects, every prefix a checked state) under all configurations; differential read-back through both decoders and an independent wire-format reader",
+  text="All histories of sample additions / new-fragment operations up to the depth bound over 1 or 3 tracks, every API variant of each data class, OptimizeTrun on/off, Encode/EncodeSW and six extra-box placements are executed on real Fragment/MediaSegment objects; the encoded init+segment is decoded by DecodeFile and DecodeFileSR (GetFullSamples per track) and by the independent reader, and bytes, size, duration, flags, composition offset and decode time of every sample are compared with what was added.",
+  note="Depth <= 2 with all 120 configurations and 16 sample kinds, depth 3 with the 20 base configurations (quick: 8 covering kinds; thorough: depth 3/4, 16 kinds). At most 2 fragments per segment, 3 tracks. Encode errors are tallied (no claim), panics are violations.",
+  design="3 C05"),
  "C11": dict(
   engine="E3 product enumerator + overlay drivers + independent fragment reader",
   technique="exhaustive enumeration of generated inputs x every target duration x every tool mode; tools' own entry points run in-process; outputs re-parsed by an independent reader and compared sample by sample",
